@@ -228,6 +228,18 @@ let () =
         (* harness-only actions that must not change any result: a change of the working directory after the reads of
            the scenario, and a permission requirement every file of the harness satisfies *)
         | ["chdir"; _] -> print_endline "rc=0"
+        (* the history of a two-directory read merged left to right by the caller with econf_mergeFiles (a file is
+           skipped when a later one has the same name; the first is taken as it is, as the library does): the result,
+           then every member of the history as it is AFTER these merges *)
+        | ["histmerge"; d1; d2; nm; sf; dl; cm] ->
+            let h = read_dirs_history (!w).w_tree (!w).w_g (cb_of (!w).w_cb) (dec_opt d1) (dec_opt d2) (dec_opt nm) (dec_opt sf) (dec dl) (dec cm) in
+            w := { !w with w_g = h.ho_g };
+            (match h.ho_res with
+             | Inl e -> print_endline (rc e)
+             | Inr files ->
+                 let merged = (match merge_files files with Some m -> show_out (ODump m) | None -> "noobj") in
+                 Printf.printf "rc=0 n=%d merged=%s%s\n" (List.length files) merged
+                   (String.concat "" (List.map (fun kf -> " || " ^ show_out (ODump kf)) files)))
         | ["tool"; cmd; arg; dl; cm] ->
             let f = (match cmd with "show" -> tool_show | "syntax" -> tool_syntax | _ -> tool_cat) in
             let r = f (!w).w_tree (dec arg) (dec dl) (dec cm) in
